@@ -56,7 +56,8 @@ class UdpFace(IpFace):
                 self.transport.sendto(data)
 
             def error_received(self, exc: Exception) -> None:
-                self.close.set_result(True)
+                if not self.close.done():
+                    self.close.set_result(True)
                 logging.getLogger(__name__).warning(exc)
 
             def connection_lost(self, exc):
